@@ -26,11 +26,6 @@ RULES = {
   ("translate_sixel_to_pixel|S2|index_mut(&*self.picture_data, (((*self.sixel_cursor.y * 6) + (next(&iter) as Some).0) as usize)) #lower", "reviewed", "only non-negativity is unproven: sixel_cursor.y starts at 0 and is only incremented"),
   ("SixelParser::parse_char|S3|resize(", "reviewed", "parsed_numbers entries are >= 0: built by parse_next_number from 0 with saturating arithmetic on digits only"),
   # ---- genuine defects (DESIGN §6; reproduced against the pristine tree)
-  ("parsers::Buffer::scroll_left|", "known", "CSI Pn SP @ on rows not yet allocated / columns beyond the row's length: unguarded lines[i], chars.insert/remove"),
-  ("parsers::Buffer::scroll_right|", "known", "CSI Pn SP A on rows not yet allocated / columns beyond the row's length: unguarded lines[i], chars.insert/remove"),
-  ("layer::Layer::insert_line|S5|", "known", "insert_line(end, ..) with a bottom margin taken unclamped from CSI r (negative when a parameter is 0): assert!(index >= 0)"),
-  ("layer::Layer::remove_line|S5|", "known", "remove_line(line) with a negative line reached through degenerate margins: assert!"),
-  ("insert_terminal_line|S3|remove(", "known", "lines.remove(end) with a bottom margin taken unclamped from CSI r (negative -> huge index)"),
  ],
 }
 
